@@ -139,7 +139,7 @@ m = {
         'guard': 'pep508_rs_verif',
         'enable': 'RUSTFLAGS="--cfg pep508_rs_verif" (set by lib/vlib/build.py for the harness build only)',
         'baseline_off_cmd': 'cd /repo && cargo test --workspace --no-fail-fast --offline',
-        'source_commits': [],
+        'source_commits': ['e5ead97'],
         'add_only': True,
     },
     'engines': [
